@@ -48,6 +48,8 @@ type Prog struct {
 	parents map[*ast.File]map[ast.Node]ast.Node
 	ssa     *ssaState
 	initial []*packages.Package
+
+	neverNilFn map[*Func]bool
 }
 
 func loadProg(dir string) (*Prog, error) {
